@@ -159,8 +159,43 @@ def main():
     consts.append(("TAG_EARLY", tagval(tagsrc, m.group(1))))
     m = need(re.search(r"if feature_tag == tag::(\w+) && !glyphs\.is_empty\(\) \{", gsub), "gsub_apply_custom fina special case")
     consts.append(("TAG_LAST_ONLY", tagval(tagsrc, m.group(1))))
-    for n in ("RVRN", "FINA", "VERT", "VRT2", "DFLT"):
+    for n in ("RVRN", "FINA", "VERT", "VRT2", "DFLT", "FRAC"):
         consts.append(("TAG_" + n, tagval(tagsrc, n)))
+
+    # ---- Features::Mask path: build_lookups_default and the ScriptType::Default arm of gsub_apply_default
+    body = norm(fn_body(gsub, r"fn build_lookups_default\("))
+    need(re.fullmatch(
+        r"let mut lookups = BTreeMap::new\(\); for \(feature_mask, feature_tag\) in FEATURE_MASKS \{ "
+        r"if feature_masks\.contains\(\*feature_mask\) \{ "
+        r"if let Some\(feature_table\) = gsub_table\.find_langsys_feature\(langsys, \*feature_tag, feature_variations\)\? \{ "
+        r"for lookup_index in &feature_table\.lookup_indices \{ lookups\.insert\(usize::from\(\*lookup_index\), \*feature_tag\); \} "
+        r"\} else if \*feature_tag == tag::(\w+) \{ let vert_tag = tag::(\w+); "
+        r"if let Some\(feature_table\) = gsub_table\.find_langsys_feature\(langsys, vert_tag, feature_variations\)\? \{ "
+        r"for lookup_index in &feature_table\.lookup_indices \{ lookups\.insert\(usize::from\(\*lookup_index\), vert_tag\); \} \} \} \} \} "
+        r"Ok\(lookups\.into_iter\(\)\.collect\(\)\)", body), "build_lookups_default body: " + body)
+    mm = re.search(r"else if \*feature_tag == tag::(\w+) \{ let vert_tag = tag::(\w+);", body)
+    consts.append(("TAG_MASK_FALLBACK_FROM", tagval(tagsrc, mm.group(1))))
+    consts.append(("TAG_MASK_FALLBACK_TO", tagval(tagsrc, mm.group(2))))
+    body = norm(fn_body(gsub, r"fn gsub_apply_default\("))
+    need(re.search(r"if tuple\.is_some\(\) \{ apply_rvrn\(&gsub_cache, opt_gdef_table, script_tag, opt_lang_tag, feature_variations, glyphs\)\?; \} "
+                   r"feature_mask\.remove\(FeatureMask::(\w+)\);", body), "gsub_apply_default rvrn prologue")
+    mm = re.search(r"feature_mask\.remove\(FeatureMask::(\w+)\); match ScriptType::from\(script_tag\)", body)
+    need(mm, "gsub_apply_default: remove(RVRN) before the script dispatch")
+    removed = mm.group(1)
+    mm = need(re.search(r"ScriptType::Default => \{ feature_mask &= get_supported_features\(gsub_cache, script_tag, opt_lang_tag\)\?; "
+                        r"if feature_mask\.contains\(FeatureMask::(\w+)\) \{", body), "gsub_apply_default Default arm")
+    frac = mm.group(1)
+    need(re.search(r"\} else \{ let index = get_lookups_cache_index\(gsub_cache, script_tag, opt_lang_tag, feature_variations, feature_mask\)\?; "
+                   r"let lookups = &gsub_cache\.cached_lookups\.borrow\(\)\[index\]; "
+                   r"gsub_apply_lookups\(gsub_cache, gsub_table, opt_gdef_table, lookups, glyphs\)\?; \} \} \} "
+                   r"strip_joiners\(glyphs\); replace_missing_glyphs\(glyphs, num_glyphs\); Ok\(\(\)\)$", body),
+         "gsub_apply_default tail: " + body[-400:])
+    body = norm(fn_body(gsub, r"fn strip_joiners<T: GlyphData>\("))
+    mm = need(re.fullmatch(r"glyphs\.retain\(\|g\| match g\.glyph_origin \{ GlyphOrigin::Char\('\\u\{([0-9A-Fa-f]+)\}'\) => false, "
+                           r"GlyphOrigin::Char\('\\u\{([0-9A-Fa-f]+)\}'\) => false, _ => true, \}\)", body), "strip_joiners body: " + body)
+    consts.append(("JOINER_1", int(mm.group(1), 16)))
+    consts.append(("JOINER_2", int(mm.group(2), 16)))
+    mask_removed_name, mask_frac_name = removed, frac
 
     # FeatureMask bits and FEATURE_MASKS table
     bits = {}
@@ -169,6 +204,10 @@ def main():
         bits[n] = int(sh)
     if not bits:
         raise Broken("FeatureMask bits")
+    for nm, cname in ((mask_removed_name, "MASK_BIT_REMOVED"), (mask_frac_name, "MASK_BIT_SPLIT")):
+        if nm not in bits:
+            raise Broken("unknown FeatureMask::" + nm)
+        consts.append((cname, bits[nm]))
     tb = need(re.search(r"const FEATURE_MASKS: &\[\(FeatureMask, u32\)\] = &\[(.*?)\];", gsub, re.S), "FEATURE_MASKS")
     table = []
     for n, t in re.findall(r"\(FeatureMask::(\w+), tag::(\w+)\)", tb.group(1)):
